@@ -95,7 +95,10 @@ def loop_drivers(eng):
             b = virtual[b]
         if kind == "iter" and ev.op == "next":
             src = iter_source(ev.recv)
-            if src is None:
+            rv_ = ev.recv[1] if isinstance(ev.recv, tuple) and ev.recv[0] == "ref" else ev.recv
+            if src is None and isinstance(rv_, tuple) and rv_[0] == "call" and rv_[2].startswith("alloc::vec::Vec::<T") and rv_[2].endswith("::drain"):
+                drv = ("group", b, "worklist %s" % show(rv_[3][0])[:60])      # `v.drain(..k).next()`: elements taken off a vector
+            elif src is None:
                 drv = ("other", b, "iterator")
             elif src[0] == "map":
                 drv = ("group", b, "hash container %s" % show(src[1])[:60])
@@ -114,6 +117,17 @@ def loop_drivers(eng):
         if best is not None and best not in out:
             out[best] = drv
             leaves[best] = leaf
+    # a loop with no other driver that takes its elements off a vector one by one some other way (`v.remove(0)`,
+    # `v.drain(..1).next()`, `v.swap_remove(i)`): still a loop over that worklist
+    for (kind, b, si), ev in eng.event_index.items():
+        if kind == "vec" and ev.op in ("remove", "swap_remove", "drain"):
+            best = None
+            for hdr, body in loops.items():
+                if b in body and (best is None or len(body) < len(loops[best])):
+                    best = hdr
+            if best is not None and best not in out:
+                out[best] = ("group", b, "worklist %s" % show(ev.recv)[:60])
+                leaves[best] = b
     return loops, out
 
 
@@ -220,9 +234,124 @@ def iter3(eng, out):
         if kind != "iter" or ev.get("recv") is None or not hash_rooted(ev.recv):
             continue
         out.obl("ITER-3", "adaptor:%s" % ev.op, (eng.name, b))
+        if ev.op == "fold" and len(ev.get("args") or ()) == 3 and getattr(eng, "program", None) is not None:
+            # folding a hash-ordered iterator is order-independent only if the accumulator is combined with the elements by
+            # one commutative, associative operation
+            from rules_trace import ClosureCache, acc_families, families_commute
+            cc = eng.program.__dict__.setdefault("_iter3_closures", ClosureCache(eng.program))
+            acc = ("param", 2)
+            cl = cc.run(ev.args[2], params={2: acc, 3: ("param", 3)})
+            if cl is not None:
+                for r in cl["returns"]:
+                    fams = acc_families(r, acc)
+                    if fams is None:
+                        continue      # this path does not carry the accumulator on (a constant result)
+                    if fams == "multi" or not families_commute(fams):
+                        out.violate("ITER-3", "order-sensitive-accumulation", "`fold` over a hash-ordered container combines its accumulator with the elements by %s: the result depends on the order in which the container hands its entries out" % (
+                            "several uses of the accumulator" if fams == "multi" else " then ".join(sorted(f.replace("!", " (clamping)").replace("other:", "") for f in fams))), where_of(g, b), entry=eng.name)
+                        break
         if ev.op in ORDER_SENSITIVE:
             out.violate("ITER-3", "order-sensitive-adaptor:%s" % ev.op, "`%s` is applied to an iterator over a hash-ordered container: which elements it keeps, skips or pairs up depends on the table order (addresses and insertion history), and so does everything done with them" % ev.op,
                         where_of(g, b), entry=eng.name)
+
+
+PLUS = ("Add", "AddUnchecked", "AddWithOverflow")
+MINUS = ("Sub", "SubUnchecked", "SubWithOverflow")
+FAMILY_OF_BIN = {**{o: "plus" for o in PLUS}, **{o: "minus" for o in MINUS}, "BitOr": "or", "BitAnd": "and", "BitXor": "xor",
+                 "Mul": "mul", "MulUnchecked": "mul", "MulWithOverflow": "mul"}
+FAMILY_OF_CALL = {"wrapping_add": "plus", "checked_add": "plus", "saturating_add": "plus!", "wrapping_sub": "minus", "checked_sub": "minus", "saturating_sub": "minus!",
+                  "max": "max", "min": "min", "wrapping_mul": "mul", "checked_mul": "mul", "saturating_mul": "mul!"}
+
+
+def iter3_accumulators(eng, out):
+    """A local accumulator carried around a loop over a hash-ordered container must be combined with the elements by one
+    commutative, associative operation (all additions, all subtractions, or / and / xor, max, min, products; plain + and -
+    may mix).  Mixing a clamping operation with another one -- `(acc + x).saturating_sub(y)` -- makes the result depend
+    on the order in which the table hands its entries out."""
+    g = eng.fn
+    loops, drivers = loop_drivers(eng)
+    for h, (kind, nb, desc) in drivers.items():
+        if kind not in ("group", "table") or not (desc.startswith("hash container") or desc.startswith("link table")):
+            continue
+        body = loops[h]
+        defs = {}
+        for b in body:
+            blk = g.blocks[b]
+            if blk["cleanup"]:
+                continue
+            for st in blk["stmts"]:
+                if st["k"] == "assign" and not st["dst"]["p"]:
+                    defs.setdefault(st["dst"]["l"], []).append(("rv", st["rv"], b))
+            t = blk["term"]
+            if t["k"] == "call" and t.get("dst") is not None and not t["dst"]["p"] and t.get("callee"):
+                defs.setdefault(t["dst"]["l"], []).append(("call", t, b))
+        outside = set()
+        for b, blk in enumerate(g.blocks):
+            if b in body:
+                continue
+            for st in blk["stmts"]:
+                if st["k"] == "assign" and not st["dst"]["p"]:
+                    outside.add(st["dst"]["l"])
+        for a in sorted(defs):
+            if a not in outside or (g.locals[a].get("ty") or {}).get("k") not in ("int", "bool"):
+                continue
+            out.obl("ITER-3", "accumulator", (eng.name, nb, a))
+            # locals computed from the value `a` had at the top of the iteration, with the operations on the way
+            taint = {a: frozenset()}
+            changed = True
+            rounds = 0
+            feeds_back = None
+            while changed and rounds < 12:
+                changed = False
+                rounds += 1
+                for l, ds in defs.items():
+                    for kind_, d, b in ds:
+                        fams = None
+                        if kind_ == "rv":
+                            k = d.get("k")
+                            if k in ("use", "cast") and d["op"].get("k") in ("copy", "move") and d["op"]["pl"]["l"] in taint:
+                                fams = taint[d["op"]["pl"]["l"]]
+                            elif k == "bin":
+                                la = d["a"]["pl"]["l"] if d["a"].get("k") in ("copy", "move") else None
+                                lb = d["b"]["pl"]["l"] if d["b"].get("k") in ("copy", "move") else None
+                                src = la if la in taint else (lb if lb in taint else None)
+                                if src is not None:
+                                    fam = FAMILY_OF_BIN.get(d["op"])
+                                    if fam is None:
+                                        if d["op"] in ("Eq", "Ne", "Lt", "Le", "Gt", "Ge"):
+                                            continue      # a test on the accumulator, not a new value for it
+                                        fam = "other:%s" % d["op"]
+                                    elif fam == "minus" and src != la:
+                                        fam = "other:reversed-subtraction"
+                                    fams = taint[src] | {fam}
+                        else:
+                            srcs = [x["pl"]["l"] for x in d.get("args") or [] if x.get("k") in ("copy", "move") and not x["pl"]["p"] and x["pl"]["l"] in taint]
+                            if srcs:
+                                m = d["callee"]["def"].rsplit("::", 1)[-1]
+                                fam = FAMILY_OF_CALL.get(m) if d["callee"]["def"].startswith(("core::num::", "core::cmp::")) else None
+                                if fam is None:
+                                    fam = "other:%s" % m
+                                fams = taint[srcs[0]] | {fam}
+                        if fams is None:
+                            continue
+                        if l == a:
+                            if feeds_back is None or not fams <= feeds_back:
+                                feeds_back = (feeds_back or frozenset()) | fams
+                                changed = True
+                        elif l not in taint or not fams <= taint[l]:
+                            taint[l] = taint.get(l, frozenset()) | fams
+                            changed = True
+            if not feeds_back:
+                continue
+            fams = set(feeds_back)
+            plain = {f.rstrip("!") for f in fams}
+            clamped = any(f.endswith("!") for f in fams)
+            ok = len(plain) == 1 or (plain <= {"plus", "minus"} and not clamped)
+            if any(f.startswith("other:") for f in fams):
+                ok = False
+            if not ok:
+                out.violate("ITER-3", "order-sensitive-accumulation", "a value carried around the loop over %s is combined with the elements by %s: the result depends on the order in which the container hands its entries out" % (
+                    desc, " then ".join(sorted(f.replace("!", " (clamping)").replace("other:", "") for f in fams))), where_of(g, nb), entry=eng.name)
 
 
 def key1(program, out):
@@ -310,7 +439,12 @@ def iter5(eng, out):
             d = t["callee"]["def"]
             m = d.rsplit("::", 1)[1]
             if (d.startswith("core::slice::") and m in ("contains", "iter", "binary_search", "starts_with")) or (d.startswith("alloc::vec::Vec::<T") and m in ("contains", "remove", "insert", "retain", "dedup", "drain", "sort", "sort_unstable")):
-                if m in ("contains", "remove", "insert", "retain", "dedup", "sort", "sort_unstable", "binary_search"):
+                # `drain(..)` / `drain(k..)` give up a suffix (cost: what is removed); any other range leaves a tail
+                # behind that is moved down, one shift of the whole remainder per call
+                shifting_drain = m == "drain" and d.startswith("alloc::vec::Vec::<T") and any(
+                    str(ta.get("s", "")).startswith(("core::ops::RangeTo<", "core::ops::Range<", "core::ops::RangeInclusive<", "core::ops::RangeToInclusive<", "core::ops::range::RangeTo<", "core::ops::range::Range<"))
+                    for ta in (t["callee"].get("targs") or []))
+                if m in ("contains", "remove", "insert", "retain", "dedup", "sort", "sort_unstable", "binary_search") or shifting_drain:
                     out.violate("ITER-5", "linear-scan-in-group-loop:%s" % m, "`%s` (linear in the collection) is called inside a loop over %s" % (d, drivers[h][2]), where_of(g, b), entry=eng.name)
     # a closure handed to library code inside a group loop (the predicate of `extract_if` / `retain` / `filter` ...) that
     # itself walks a sequence it captured (`cycle.iter().any(..)` instead of `cycle.contains_key(..)`): one scan per call
